@@ -29,9 +29,10 @@ let index_of x l = let rec go i = function [] -> -1 | y :: t -> if x = y then i 
 
 let s_gw g obs =
   let nochecks = getbool g "nochecks" in
-  let socks = List.map int_of_string (String.split_on_char ',' (g "socks")) in
+  let sockl = List.map (fun x -> match String.split_on_char '@' x with [h; p] -> (h, int_of_string p) | _ -> failwith "socks") (String.split_on_char ',' (g "socks")) in
+  let socks = List.map snd sockl in
+  let sock_index h p = let rec go i = function [] -> -1 | (h2, p2) :: t -> if h2 = h && p2 = p then i else go (i + 1) t in go 0 sockl in
   let evs = String.split_on_char '|' (g "ev") in
-  let host = coq_string_of "127.0.0.1" in
   let st = ref { gs_ports = []; gs_regs = []; gs_nochecks = nochecks } in
   let verdict = ref "ok" in
   let iobs = Array.of_list (String.split_on_char '|' obs) in
@@ -56,12 +57,12 @@ let s_gw g obs =
       (match gw_unmarshal data with
        | Ok pkt ->
          let body = if cls = "valid" || cls = "norxpk" then Some ents else None in
-         let d = { dg_pkt = pkt; dg_host = host; dg_port = n_of_int (List.nth socks si); dg_body = body } in
+         let d = { dg_pkt = pkt; dg_host = coq_string_of (fst (List.nth sockl si)); dg_port = n_of_int (List.nth socks si); dg_body = body } in
          let was_auth = authorised !st d in
          let ((s', replies), fwds) = gw_step !st d in
          st := s';
          let rs = List.sort compare (List.filter_map (fun r ->
-             let idx = index_of (int_of_n r.rp_port) socks in
+             let idx = sock_index (ocaml_string_of r.rp_host) (int_of_n r.rp_port) in
              if idx < 0 then None else
                Some (Printf.sprintf "%d:%02x%02x%02x%02x" idx (int_of_n r.rp_ver) (int_of_n r.rp_token / 256) (int_of_n r.rp_token mod 256) (int_of_n r.rp_ident))) replies) in
          (* oracle on the implementation's observation: one ack per request with the request's token,
@@ -70,14 +71,18 @@ let s_gw g obs =
          if int_of_n pkt.gp_ident = 0 && not was_auth && (iack <> "" || (not opaque && io <> "[] []")) then verdict := "bad:unauthorised-gateway-served";
          if int_of_n pkt.gp_ident = 0 && was_auth && iack <> String.concat " " rs then verdict := "bad:push-data-not-acknowledged-once-with-token";
          if int_of_n pkt.gp_ident = 2 && iack <> String.concat " " rs then verdict := "bad:pull-data-not-acknowledged-once-with-token";
+         (if int_of_n pkt.gp_ident = 0 && was_auth && not opaque && !verdict = "ok" then
+            let ifw = (try let j = String.index io ']' in String.sub io (j + 2) (String.length io - j - 2) with _ -> "") in
+            if ifw <> "[" ^ String.concat " " (List.map fwd_str fwds) ^ "]" then verdict := "bad:rxpk-entries-not-handed-over-once-in-order-intact");
          "[" ^ String.concat " " rs ^ "] " ^ (if opaque then "F?" else "[" ^ String.concat " " (List.map fwd_str fwds) ^ "]")
        | _ -> if io <> "[] []" && io <> "[] F?" && !verdict = "ok" then verdict := "bad:malformed-datagram-answered";
          "[] " ^ (if opaque then "F?" else "[]"))
-    | ["DL"; eui; clock; delay; freq; datr; ver; raw] ->
+    | ["DL"; eui; clock; delay; freq; datr; ver; raw; dlhost] ->
+      let host = coq_string_of dlhost in
       let rawb = bytes_of_hex raw in
       let r = encode_and_send !st rawb (n_of_int (int_of_string clock)) (n_of_int (int_of_string delay)) (coq_string_of freq)
           (coq_string_of datr) (n_of_hex eui) host (n_of_int (int_of_string ver)) in
-      let idx = index_of (int_of_n r.pr_port) socks in
+      let idx = sock_index dlhost (int_of_n r.pr_port) in
       let t = r.pr_tx in
       let kv = List.filter_map (fun (k, v, zero) -> if key_present (coq_string_of k) zero then Some (k ^ "=" ^ v) else None)
           [ ("codr", ocaml_string_of t.t_codr, ocaml_string_of t.t_codr = ""); ("data", hex_of_bytes t.t_data, false);
